@@ -16,6 +16,10 @@ def main():
     with open(legacy_fp.FROZEN, "w") as f:
         json.dump(cur, f, indent=1, sort_keys=True)
     print("frozen %d readers, %d facts" % (len(cur), sum(len(v) for v in cur.values())))
+    vals = legacy_fp.current_values(Model(repo))
+    with open(legacy_fp.FROZEN_VALUES, "w") as f:
+        json.dump(vals, f, indent=1, sort_keys=True)
+    print("frozen %d pre-productmd readers, %d condition-free facts" % (len(vals), sum(len(v) for v in vals.values())))
 
 if __name__ == "__main__":
     main()
